@@ -1786,8 +1786,13 @@ func scenSnapshotVsInstall(e *engineA) error {
 	// to its temporary file and before it is renamed into place (the
 	// installation writes a label of its own meanwhile)
 	holdAt := "snap.captured"
-	if e.rng.Intn(3) == 0 {
+	switch e.rng.Intn(4) {
+	case 0:
 		holdAt = "snap.beforePublish"
+	case 1:
+		// while the state is being written: the snapshot's file exists, it
+		// knows which snapshot was current when it began, nothing is published
+		holdAt = "fsm.persist"
 	}
 	e.rc.emit(&ev.Rec{K: "fault", Op: "snapshot-held-after-capture", Nid: f.nid, Note: holdAt})
 	hit := e.pc.hold(f.dir, holdAt)
@@ -1829,7 +1834,7 @@ func scenSnapshotVsInstall(e *engineA) error {
 	linfo, _ := l.info(false)
 	e.rc.emit(&ev.Rec{K: "fault", Op: "heal-then-finish-old-snapshot", Nid: f.nid})
 	e.isolate(f, false)
-	if holdAt == "snap.captured" {
+	if holdAt == "snap.captured" || holdAt == "fsm.persist" {
 		e.waitFor(60, func() bool {
 			info, ok := f.info(false)
 			return ok && info.SnapshotIndex >= linfo.SnapshotIndex && linfo.SnapshotIndex > 0
@@ -2403,16 +2408,27 @@ func scenOpenVsRetention(e *engineA) error {
 	for i := 0; i < 3+e.rng.Intn(5); i++ {
 		e.cl.fsmOpPad(1, l, "update", pad)
 	}
-	hit := e.pc.hold(l.dir, "snap.open.metaRead")
+	holdAt := "snap.open.metaRead"
+	if e.rng.Intn(2) == 0 {
+		// earlier: the replication is counting itself as a user of the
+		// current snapshot (it holds the store's user lock) when the next
+		// snapshot is published
+		holdAt = "snap.open.counting"
+	}
+	hit := e.pc.hold(l.dir, holdAt)
 	e.isolate(f, false)
 	select {
 	case <-hit:
 		// the replication holds the label of the current snapshot; the next one is published
-		e.cl.takeSnapshot(l, 0)
+		if holdAt == "snap.open.counting" {
+			go e.cl.takeSnapshot(l, 0) // its retention step waits for the user lock
+		} else {
+			e.cl.takeSnapshot(l, 0)
+		}
 		e.sleepHB(1, 2)
 	case <-time.After(40 * e.hb()):
 	}
-	e.pc.release(l.dir, "snap.open.metaRead")
+	e.pc.release(l.dir, holdAt)
 	e.sleepHB(3, 5)
 	e.startClients(2, map[string]int{"update": 3, "read": 1})
 	e.sleepHB(4, 8)
